@@ -542,15 +542,17 @@ class Sandbox:
         self._module_overrides['__builtins__'] = builtins
         # Handle allowing *actual* printing to the real stdout console
         if self._module_overrides['__builtins__'].get('print') is not True:
-            self._current_stdout.append(io.StringIO())
+            captured_stdout = io.StringIO()
         else:
-            self._current_stdout.append(PrintingStringIO())
+            captured_stdout = PrintingStringIO()
         # And do the patches
         self._start_patches(
             patch.dict('sys.modules', overridden_modules),
-            patch('sys.stdout', self._current_stdout[-1]),
+            patch('sys.stdout', captured_stdout),
             patch('time.sleep', return_value=None),
         )
+        # Only track the buffer once it is really capturing
+        self._current_stdout.append(captured_stdout)
 
     def _stop_mocking(self, context: SandboxContext):
         """ Turn off any patches, store output """
@@ -561,9 +563,17 @@ class Sandbox:
     # Patching Functionality
     def _start_patches(self, *patches):
         """ Helper function to start and keep track of multiple patches """
+        started = []
+        try:
+            for a_patch in patches:
+                a_patch.start()
+                started.append(a_patch)
+        except BaseException:
+            # A patch that cannot start (e.g., `time` or `sys` was blocked) must not leave the others active
+            for a_patch in reversed(started):
+                a_patch.stop()
+            raise
         self._current_patches.append(patches)
-        for a_patch in patches:
-            a_patch.start()
 
     def _stop_patches(self):
         """ Helper function to end any tracked patches """
